@@ -40,7 +40,7 @@ var specs = map[string]Spec{
 	},
 	"C10": {
 		Prop: "C10", Engine: "order-world", Level: "exploration", Binary: "root",
-		Quick:    Tier{Count: 5000, BudgetS: 100},
+		Quick:    Tier{Count: 5000, BudgetS: 135},
 		Thorough: Tier{Count: 200000, BudgetS: 1200},
 		Rule: "one run = one (program, option set): seeded program of 1-5 files (many includes incl. unused ones, same names in several files, file names equal to packages the generated code imports (fmt, errors, strings, wire, stream, zapcore, ...), recursive types, constants of list/set/map type, defaults, services with inheritance across files) x options (no-recurse, no-types, no-constants, no-service-helpers, no-embed-idl, no-zap, no-version-check, enum-text-marshal-strict, output-file), compiled and generated N times (6 quick, 16 thorough) into a fresh directory, each time under another seeded map-iteration order at every range-over-map site of compile/ and gen/ (sorted, reverse, random, rotated, one-key-first) with an in-process capturing service generator; oracles: same outcome, same set of paths, same sha256 of every file, same plugin request after renumbering module ids by Thrift path and service ids by (module path, Thrift name); root lists compared as multisets. " +
 			"Every run is non-trivial; distinct = distinct choice lists.",
